@@ -68,7 +68,23 @@ type vkC09KeysT struct {
 var (
 	vkC09K     *vkC09KeysT
 	vkC09KOnce sync.Once
+	// vkC09CarryMode (set before the universe is first built; unit "carry"): K1 and K2 are keys whose
+	// key tag does NOT grow by exactly 128 when the REVOKE bit is set — the RFC 4034 B checksum folds a
+	// carry (about one key in 512). Code that finds "the key this revocation belongs to" by tag
+	// arithmetic instead of by key material misses them.
+	vkC09CarryMode bool
 )
+
+// vkC09FindCarry returns the first seed >= from whose plain and revoked key tags differ by something else than 128.
+func vkC09FindCarry(name string, from uint32) uint32 {
+	for seed := from; seed < from+200000; seed++ {
+		k := vkC09MkKey(name, seed)
+		if dnssec.KeyTag(k.rr(257|DNSKEYFlagRevoke)) != dnssec.KeyTag(k.rr(257))+DNSKEYFlagRevoke {
+			return seed
+		}
+	}
+	panic("vk c09: no carry key found")
+}
 
 func vkC09FindCollision(target uint16) uint32 {
 	for seed := uint32(100000); seed < 100000+4000000; seed++ {
@@ -85,11 +101,18 @@ func vkC09Universe() *vkC09KeysT {
 		u := &vkC09KeysT{k: map[string]*vkC09Key{}, byPub: map[string]string{}, sigs: map[string]*dns.RRSIG{}}
 		u.k["K1"] = vkC09MkKey("K1", vkC09SeedK1)
 		u.k["K2"] = vkC09MkKey("K2", vkC09SeedK2)
+		if vkC09CarryMode {
+			s1 := vkC09FindCarry("K1", 1000)
+			u.k["K1"] = vkC09MkKey("K1", s1)
+			u.k["K2"] = vkC09MkKey("K2", vkC09FindCarry("K2", s1+1))
+		}
 		u.k["U"] = vkC09MkKey("U", vkC09SeedU)
 		u.k["Z"] = vkC09MkKey("Z", vkC09SeedZ)
 		t1 := dnssec.KeyTag(u.k["K1"].rr(257))
 		k3 := vkC09MkKey("K3", vkC09SeedK3)
-		if dnssec.KeyTag(k3.rr(257)) != t1 {
+		if vkC09CarryMode {
+			k3 = vkC09MkKey("K3", 5) // no tag collision in this universe: K3 is just a third key
+		} else if dnssec.KeyTag(k3.rr(257)) != t1 {
 			seed := vkC09FindCollision(t1)
 			if seed == 0 {
 				panic("vk c09: no key-tag collision found")
